@@ -167,16 +167,28 @@ func GenTag(t *tape.Tape, tag byte, depth int) *Node {
 	case Double:
 		n.Num = math.Float64bits(float64(int64(num(t, 64))) / 7)
 	case ByteArray:
-		n.Bytes = t.Bytes(t.Choose(40))
+		cnt := t.Choose(40)
+		if t.Bool(1, 40) {
+			cnt = 4090 + t.Choose(5000)
+		}
+		n.Bytes = t.Bytes(cnt)
 	case String:
 		n.Str = str(t)
 	case IntArray:
-		n.Ints = make([]int32, t.Choose(8))
+		cnt := t.Choose(8)
+		if t.Bool(1, 40) {
+			cnt = 1020 + t.Choose(2000) // beyond typical batch/buffer sizes
+		}
+		n.Ints = make([]int32, cnt)
 		for i := range n.Ints {
 			n.Ints[i] = int32(num(t, 32))
 		}
 	case LongArray:
-		n.Longs = make([]int64, t.Choose(6))
+		cnt := t.Choose(6)
+		if t.Bool(1, 40) {
+			cnt = 510 + t.Choose(1000)
+		}
+		n.Longs = make([]int64, cnt)
 		for i := range n.Longs {
 			n.Longs[i] = int64(num(t, 64))
 		}
